@@ -189,6 +189,10 @@ class FatIO(io.RawIOBase):
         if sz == 0:
             # Nothing to do
             return sz
+        if self.mode.appending:
+            # In append mode all writes go to the end of the file,
+            # regardless of the current seek position
+            self.seek(0, 2)
         if self.__bpos + sz > self.dir_entry.MAX_FILE_SIZE:
             raise PyFATException(f"Unable to write {sz} bytes to file as "
                                  f"total file size would exceed FAT "
